@@ -67,12 +67,14 @@ def gen_wrap_consts(repo):
     ansi = _read(repo, "src/ansi/mod.rs")
     m = _need(re.search(r"pub fn wrap_line<.*?\n}\n", wr, re.S), "wrap_line body")
     body = m.group(0)
-    force = bool(re.search(r"if new_len == graphemes_width \{\s*let first_width = graphemes\.first\(\)\.map_or\(0, \|&\(_, width\)\| width\);\s*"
-                           r"width_left = width_left\.max\(first_width\)\.max\(1\);\s*\}", body))
-    has_shortcut = "let next_line = if width_left == 0 {" in body
+    force = bool(re.search(r"let line_is_empty = new_len == graphemes_width;", body)) and \
+        bool(re.search(r"if byte_split_pos == 0 && line_is_empty \{\s*if let Some\(&\(item_len, _\)\) = graphemes\.first\(\) \{\s*"
+                       r"byte_split_pos = item_len;\s*\}\s*\}", body))
+    sc_plain = "let next_line = if width_left == 0 {" in body
+    sc_guarded = "let next_line = if width_left == 0 && !line_is_empty {" in body
     no_shortcut = bool(re.search(r"let next_line = \{\s*let mut byte_split_pos = 0;", body))
-    if has_shortcut == no_shortcut:
-        raise SystemExit("extract: wrap: cannot tell whether the `width_left == 0` shortcut is present")
+    if [sc_plain, sc_guarded, no_shortcut].count(True) != 1 or (sc_guarded and not force) or (sc_plain and force):
+        raise SystemExit("extract: wrap: cannot tell how the `width_left == 0` shortcut of wrap_line is handled")
     zwfit = bool(re.search(r"Some\(_\) if stack\.iter\(\)\.all\(\|\(_, text\)\| text\.width\(\) == 0\) => \{\s*"
                            r"curr_line\.push_and_set_len\(\(style, text\), new_len\);\s*false\s*\}", body))
     m = _need(re.search(r"fn truncate_str_impl<.*?\n}\n", ansi, re.S), "truncate_str_impl body")
